@@ -130,3 +130,35 @@ def arm_is_pure_panic(arm_body):
             items.append(e["tail"])
         return len(items) == 1 and arm_is_pure_panic(items[0])
     return False
+
+
+def parent_map(root):
+    """id(node) -> parent expression node (nearest enclosing dict with key 'e'), plus id -> node."""
+    par = {}
+    st = [(root, None)]
+    while st:
+        x, p = st.pop()
+        if isinstance(x, dict):
+            np = p
+            if "e" in x:
+                par[id(x)] = p
+                np = x
+            for v in x.values():
+                if isinstance(v, (dict, list)):
+                    st.append((v, np))
+        elif isinstance(x, list):
+            for v in x:
+                if isinstance(v, (dict, list)):
+                    st.append((v, p))
+    return par
+
+
+def stmts_after(block, node):
+    """statements of `block` that follow the statement containing `node` (by identity)"""
+    items = list(block.get("stmts", []))
+    if block.get("tail") is not None:
+        items.append(block["tail"])
+    for i, s in enumerate(items):
+        if any(n is node for n in walk(s)) or s is node:
+            return items[i + 1:]
+    return []
